@@ -3,5 +3,6 @@ CONSTANT Dev = "lpnorm_ignores_layout"
 INVARIANT FusionSound
 INVARIANT LpNormSound
 INVARIANT MeanSound
+INVARIANT NormLaws
 INVARIANT DigitizeLaws
 CHECK_DEADLOCK FALSE
